@@ -84,3 +84,163 @@ package field
 //@   ensures [receiver] result == v
 //@   ensures [tight] tight(v)
 //@   ensures [value] cong(lv(v), 0 - lv(a), P)
+
+//@ func feMulGeneric(v, a, b)
+//@   mode lia
+//@   requires [inv] inv(a) && inv(b)
+//@   assigns *v
+//@   ensures [tight] tight(v)
+//@   ensures [value] cong(lv(v), lv(a) * lv(b), P)
+
+//@ func feSquareGeneric(v, a)
+//@   mode lia
+//@   requires [inv] inv(a)
+//@   assigns *v
+//@   ensures [tight] tight(v)
+//@   ensures [value] cong(lv(v), lv(a) * lv(a), P)
+
+//@ func feMul(v, a, b)
+//@   mode lia
+//@   requires [inv] inv(a) && inv(b)
+//@   assigns *v
+//@   ensures [tight] tight(v)
+//@   ensures [value] cong(lv(v), lv(a) * lv(b), P)
+
+//@ func feSquare(v, a)
+//@   mode lia
+//@   requires [inv] inv(a)
+//@   assigns *v
+//@   ensures [tight] tight(v)
+//@   ensures [value] cong(lv(v), lv(a) * lv(a), P)
+
+//@ func (*Element).Multiply(v, x, y)
+//@   mode lia
+//@   requires [inv] inv(x) && inv(y)
+//@   assigns *v
+//@   ensures [receiver] result == v
+//@   ensures [tight] tight(v)
+//@   ensures [value] cong(lv(v), lv(x) * lv(y), P)
+
+//@ func (*Element).Square(v, x)
+//@   mode lia
+//@   requires [inv] inv(x)
+//@   assigns *v
+//@   ensures [receiver] result == v
+//@   ensures [tight] tight(v)
+//@   ensures [value] cong(lv(v), lv(x) * lv(x), P)
+
+//@ func mul51(a, b)
+//@   mode lia
+//@   requires [fits] a <= B
+//@   ensures [value] result0 + result1 * 2^51 == a * b
+//@   ensures [lo] result0 <= M51
+//@   ensures [hi] result1 <= a * b / 2^51
+
+//@ func (*Element).Mult32(v, x, y)
+//@   mode lia
+//@   requires [inv] inv(x)
+//@   assigns *v
+//@   ensures [receiver] result == v
+//@   ensures [inv] inv(v)
+//@   ensures [value] cong(lv(v), lv(x) * y, P)
+
+//@ func (*Element).Zero(v)
+//@   mode lia
+//@   assigns *v
+//@   ensures [receiver] result == v
+//@   ensures [value] v.l0 == 0 && v.l1 == 0 && v.l2 == 0 && v.l3 == 0 && v.l4 == 0
+
+//@ func (*Element).One(v)
+//@   mode lia
+//@   assigns *v
+//@   ensures [receiver] result == v
+//@   ensures [value] v.l0 == 1 && v.l1 == 0 && v.l2 == 0 && v.l3 == 0 && v.l4 == 0
+
+//@ func (*Element).Set(v, a)
+//@   mode lia
+//@   assigns *v
+//@   ensures [receiver] result == v
+//@   ensures [value] v.l0 == a.l0 && v.l1 == a.l1 && v.l2 == a.l2 && v.l3 == a.l3 && v.l4 == a.l4
+
+//@ func (*Element).reduce(v)
+//@   mode lia
+//@   requires [inv] inv(v)
+//@   assigns *v
+//@   ensures [receiver] result == v
+//@   ensures [canon] canon(v)
+//@   ensures [value] lv(v) == lv(old(v)) % P
+
+//@ define eqlimbs(x, y) = x.l0 == y.l0 && x.l1 == y.l1 && x.l2 == y.l2 && x.l3 == y.l3 && x.l4 == y.l4
+
+//@ func mask64Bits(cond)
+//@   mode bv
+//@   requires [cond] cond == 0 || cond == 1
+//@   ensures [one] cond == 1 ==> result == 2^64 - 1
+//@   ensures [zero] cond == 0 ==> result == 0
+
+//@ func (*Element).Select(v, a, b, cond)
+//@   mode bv
+//@   requires [cond] cond == 0 || cond == 1
+//@   assigns *v
+//@   ensures [receiver] result == v
+//@   ensures [one] cond == 1 ==> eqlimbs(v, a)
+//@   ensures [zero] cond == 0 ==> eqlimbs(v, b)
+
+//@ func (*Element).Swap(v, u, cond)
+//@   mode bv
+//@   requires [cond] cond == 0 || cond == 1
+//@   assigns *v, *u
+//@   ensures [one] cond == 1 ==> eqlimbs(v, old(u)) && eqlimbs(u, old(v))
+//@   ensures [zero] cond == 0 ==> eqlimbs(v, old(v)) && eqlimbs(u, old(u))
+
+//@ func (*Element).SetBytes(v, x)
+//@   mode bv
+//@   assigns *v
+//@   ensures [badlen] len(x) != 32 ==> isnil(result0) && !isnil(result1) && unchanged(*v)
+//@   ensures [ok] len(x) == 32 ==> result0 == v && isnil(result1)
+//@   ensures [value] len(x) == 32 ==> lv(v) == le(x, 32) % 2^255
+//@   ensures [limbs] len(x) == 32 ==> v.l0 <= M51 && v.l1 <= M51 && v.l2 <= M51 && v.l3 <= M51 && v.l4 <= M51
+
+//@ func (*Element).bytes(v, out)
+//@   mode bv
+//@   requires [inv] inv(v)
+//@   requires [zeroed] forall i in 0..32: out[i] == 0
+//@   assigns *out
+//@   ensures [slice] result == sliceof(out, 0, 32)
+//@   ensures [value] le(out, 32) == lv(v) % P
+
+//@ func (*Element).Bytes(v)
+//@   mode bv
+//@   requires [inv] inv(v)
+//@   ensures [fresh] fresh(result)
+//@   ensures [len] len(result) == 32
+//@   ensures [value] le(result, 32) == lv(v) % P
+
+//@ func (*Element).Equal(v, u)
+//@   mode bv
+//@   requires [inv] inv(v) && inv(u)
+//@   ensures [bit] result == 0 || result == 1
+//@   ensures [iff] result == 1 <==> lv(v) % P == lv(u) % P
+
+//@ func (*Element).IsNegative(v)
+//@   mode bv
+//@   requires [inv] inv(v)
+//@   ensures [value] result == (lv(v) % P) % 2
+
+//@ func (*Element).Absolute(v, u)
+//@   mode lia
+//@   requires [inv] inv(u)
+//@   assigns *v
+//@   ensures [receiver] result == v
+//@   ensures [inv] inv(v)
+//@   ensures [even] (lv(v) % P) % 2 == 0
+//@   ensures [pos] (lv(u) % P) % 2 == 0 ==> eqlimbs(v, u)
+//@   ensures [neg] (lv(u) % P) % 2 == 1 ==> cong(lv(v), 0 - lv(u), P)
+
+//@ func (*Element).SetWideBytes(v, x)
+//@   mode lia
+//@   assigns *v
+//@   ensures [badlen] len(x) != 64 ==> isnil(result0) && !isnil(result1) && unchanged(*v)
+//@   ensures [ok] len(x) == 64 ==> result0 == v && isnil(result1)
+//@   ensures [value] len(x) == 64 ==> cong(lv(v), le(x, 64), P)
+//@   ensures [tight] len(x) == 64 ==> tight(v)
